@@ -259,6 +259,7 @@ def leg(run):
             [("cycles", 1200, 6), ("burst", 600, 4), ("timeout", 48, 3), ("cycleslong", 48, 3)])
     jobs = []
     for k, (fam, n, j) in enumerate(plan):
+        n = run.scaled(n) if quick else n       # anchor drift: escalated budget
         done = 0
         while done < n:
             m = min(300, n - done)
